@@ -16,8 +16,7 @@ CFG = dict(
                  "3": "crash: a panic, or the forwarding loop ended while the context was live",
                  "4": "isolation: an accepted envelope between two live peers did not reach the destination's connection within the step of its delivery while a third peer was stuck / failing / dialling",
                  "5": "removal: a failed connection was not reported to the disconnect callback / kept its table entry / the callback named another record / a newer (or unharmed) connection under the name lost its table entry",
-                 "6": "shutdown: after the context was cancelled the forwarding loop or a peer goroutine of the proxy is still alive at a quiescent point, or envelopes are still handed on",
-                 "7": "end-to-end: an RPC through the real Proxy ended differently from the same RPC on a direct connection"},
+                 "6": "shutdown: after the context was cancelled the forwarding loop or a peer goroutine of the proxy is still alive at a quiescent point, or envelopes are still handed on"},
     rule="lock-step in synctest bubbles on the real goat.Proxy with scripted peer transports, compared with every outcome of the model over "
          "all orders of its internal rules: 6 third-peer roles (stuck writer, failing reader, failing writer, dial error, slow dial, none) x "
          "sources (honest / forged / header-less / nil envelope, also from the third peer) x sequential / concurrent senders x 3 or 18 "
@@ -25,7 +24,8 @@ CFG = dict(
          "blocked write) of the old connection, twice; the context cancelled at EVERY step of each of these (quick: a third of the positions "
          "of the long ones); transports that ignore their context; faults and cancellation in ONE step (also cancelling from inside the "
          "forwarding loop), repeated, judged by the predicates alone; a peer dialled on demand whose connection then fails (read / write / blocked write / dial error) and is dialled again, with the "
-         "context cancelled at every step; seeded random walks with faults; free-running stress with forged sources; AddClient and live traffic during a slow dial; the rig runs as 8 shard processes; a scenario in which the proxy holds a mutex across a "
+         "context cancelled at every step; seeded random walks with faults; free-running stress with forged sources; AddClient and live traffic during a slow dial; forged sources (another attached peer, an unknown name, the proxy's own name) with "
+         "sender-controlled route record and return route ([], [sender], [other], [x, sender], [sender, x], ...) and every envelope shape; the rig runs as 8 shard processes; a scenario in which the proxy holds a mutex across a "
          "blocking call (synctest.Wait cannot return) is reported as wedged by a real-time watcher (exit 3 = failing input) and the run resumes",
     assumptions=["payloads are opaque to the proxy (tokens)",
                  "peer transports honour their context in Read and in a blocked Write (the shutdown clause; transports that do not are exercised too and then only the model comparison applies); the newConnection callback returns",
